@@ -1526,3 +1526,9 @@ M("c09_mut_string_insert_gate_differs_from_twin", ["C09"], ["C09.R9"], [
             unsafe {
                 let src = self.as_ptr().add(end);""")])
 
+M("c12_prepare_allocation_without_padding_revert", ["C12", "C01"], ["C12.R6", "C01.R16"], [
+    ("src/traits/bump_allocator_core.rs", """        // this only works out when the size is a multiple of the alignment.
+        let layout = layout.pad_to_align();
+""", """        // this only works out when the size is a multiple of the alignment.
+""")])
+
